@@ -22,6 +22,7 @@ EXTENDS VT500, TLC
 CONSTANTS MaxLen,        \* input length bound
           Cap,           \* channel capacity (2 in the code)
           AllowClose,    \* TRUE: the Closer may act
+          EmitUnlocked,  \* TRUE (negative control): the repaired callback releases the mutex while it sends
           StallFire,     \* TRUE: the run loop may be descheduled at the top of its loop for longer than the
                          \* ESC delay, so the timer of a pending ESC can fire there too (not only during silence)
           FixedTimer     \* TRUE: model of the repaired callback (whole callback under the mutex, owner check)
@@ -194,11 +195,12 @@ TSet(k) ==
 FLock(k) ==
   /\ FixedTimer /\ tm[k] = "fired" /\ mu = 0
   /\ IF pend /\ last = k /\ ~finished
-     THEN /\ mu' = k /\ pend' = FALSE /\ tm' = [tm EXCEPT ![k] = "sending"] /\ DoSend(k, C0I(27))
+     THEN /\ mu' = (IF EmitUnlocked THEN 0 ELSE k) /\ pend' = FALSE /\ tm' = [tm EXCEPT ![k] = "sending"] /\ DoSend(k, C0I(27))
      ELSE /\ tm' = [tm EXCEPT ![k] = "done"] /\ UNCHANGED <<mu, pend, buf, sendq, panic>>
   /\ UNCHANGED <<inp, eofGap, avail, rd, rpc, sym, st, owner, last, closed, got, closeReq, clobber, expired, finished>>
 FSet(k) ==
   /\ FixedTimer /\ tm[k] = "sending" /\ ~Blocked(k) /\ ~panic
+  /\ EmitUnlocked => mu = 0             \* it takes the mutex again before resetting the state
   /\ clobber' = (clobber \/ ~(st = "escape" /\ owner = k))
   /\ st' = "ground" /\ owner' = 0 /\ mu' = 0 /\ tm' = [tm EXCEPT ![k] = "done"]
   /\ UNCHANGED <<inp, eofGap, avail, rd, rpc, sym, last, buf, sendq, closed, panic, got, closeReq, pend, expired, finished>>
